@@ -129,6 +129,26 @@ def r04_2(ctx):
     ctx.run_rule("R04.2", "Result discipline in the filter layers", body, floor=30)
 
 
+_APPENDS = {}
+
+
+def appends_param(F, key, k):
+    """True when the local function `key` appends its k-th parameter (a text) to a String with
+    push_str on every path that returns normally."""
+    if (key, k) in _APPENDS:
+        return _APPENDS[(key, k)]
+    g = F.fns.get(key)
+    ok = False
+    if g is not None and not g.derived:
+        try:
+            paths = [p for p in Sym(g, copies=False, max_paths=2000).paths() if p.end[0] == "ret"]
+            ok = bool(paths) and all(any(e[0] == "call" and e[1] == "std::string::String::push_str" and e[2][1] == ("param", k) for e in p.events) for p in paths)
+        except Exception:
+            ok = False
+    _APPENDS[(key, k)] = ok
+    return ok
+
+
 def r04_3(ctx):
     F = ctx.facts
 
@@ -173,6 +193,8 @@ def r04_3(ctx):
                         pending = False
                     elif e[0] == "call" and e[1] in (HF + "::on_start_tag_token", HF + "::on_end_tag_token") and cur in e[2]:
                         pending = False
+                    elif e[0] == "call" and cur in e[2] and appends_param(F, e[1], e[2].index(cur) + 1):
+                        pending = False  # a local helper that appends the text it is given on every path
                     elif e[0] == "call" and e[1] == "std::string::String::into_bytes" and e[2][0] == cur:
                         pending = False
                     elif e[0] in ("set", "init") and e[1] == td:
